@@ -526,6 +526,87 @@ pub fn run(seed: u64) -> RunReport {
         );
     }
 
+    //--- 3b. A suspended child whose entitlement shrank calls in: its
+    // (validly signed) list request wakes it up; what the reply offers and
+    // carries must lie within the entitlement as it is now.
+    if rng.chance(2, 3) {
+        step += 1;
+        stop_if_dead!('run);
+        // kidB holds a certificate for its whole entitlement.
+        let msg = provisioning::Message::issue(
+            sender("kidB"), recipient(PARENT),
+            IssuanceRequest::new(
+                rcn.clone(), RequestResourceLimit::new(), csr_b.clone()
+            )
+        );
+        let (out, _) = call_6492(&r, sign6492(msg, &b.key), &parent_id);
+        log.push(format!("issue kidB (whole entitlement) -> {out:?}"));
+        let inst = r.world.inst(0);
+        inst.enter();
+        let kid_b = ChildHandle::from_str("kidB").unwrap();
+        let suspended = block_on(inst.mgr().ca_child_update(
+            handle(PARENT), kid_b.clone(),
+            api::admin::UpdateChildRequest::suspend(), ADMIN
+        ));
+        let smaller = *rng.pick(&[
+            ("AS65010-AS65019", "10.1.0.0/24"),
+            ("AS65012", "10.1.0.0/16"),
+            ("", "10.1.128.0/17"),
+        ]);
+        let new_res = ResourceSet::from_strs(smaller.0, smaller.1, "")
+            .unwrap();
+        let shrunk = block_on(inst.mgr().ca_child_update(
+            handle(PARENT), kid_b.clone(),
+            api::admin::UpdateChildRequest::resources(new_res.clone()),
+            ADMIN
+        ));
+        log.push(format!(
+            "suspend kidB -> {}, shrink to {new_res} -> {}",
+            suspended.is_ok(), shrunk.is_ok()
+        ));
+        if suspended.is_ok() && shrunk.is_ok() {
+            let list = sign6492(
+                provisioning::Message::list(sender("kidB"), recipient(PARENT)),
+                &b.key
+            );
+            let (out, msg) = call_6492(&r, list, &parent_id);
+            log.push(format!("list by suspended, shrunk kidB -> {out:?}"));
+            cases.insert("6492.list_wakes_shrunk_child".into());
+            if let Some(msg) = msg {
+                if let Payload::ListResponse(list) = msg.payload() {
+                    for class in list.classes() {
+                        if !new_res.contains(class.resource_set()) {
+                            fail!(
+                                "C12", "list_beyond_entitlement",
+                                "the list reply for kidB (suspended, then \
+                                 reduced to {new_res}) offers {}",
+                                class.resource_set()
+                            );
+                        }
+                        for issued in class.issued_certs() {
+                            let got = ResourceSet::try_from(issued.cert())
+                                .unwrap_or_default();
+                            if !new_res.contains(&got) {
+                                fail!(
+                                    "C12", "issued_beyond_entitlement",
+                                    "the list request of kidB (suspended, \
+                                     then reduced to {new_res}) made the \
+                                     parent issue a certificate for {got}"
+                                );
+                            }
+                        }
+                    }
+                }
+            }
+            else {
+                fail!(
+                    "C12", "valid_request_refused",
+                    "list by the suspended child kidB: {out:?}"
+                );
+            }
+        }
+    }
+
     //--- 4. Single-bit corruption of a valid message (the network flips it).
     let n_flips = 160;
     let total_bits = valid_list.len() * 8;
